@@ -383,6 +383,9 @@ impl Formatter {
         self.writer.write(&nt.name);
         self.writer.write(" = newtype ");
         self.format_type(&nt.underlying.node);
+        if !nt.methods.is_empty() {
+            self.writer.write(":");
+        }
         self.writer.newline();
 
         // Methods if any
